@@ -178,6 +178,11 @@ def _create(spec, kind, design, raw_crossings, inherited, own_cons, rcc, mode, a
             fl.empty = "complete crossing required but combinations of weight %d are excluded/impossible" % X
         if W - X <= 0:
             fl.und_T = fl.und_T or "crossing %s has no allowed combination" % (names,)
+        for (ef, el) in excl:
+            if F[ef]["kind"] == "basic" and ef not in names and any(
+                    F[n]["kind"] == "derived" and ef in S.basic_roots(spec, n) for n in names):
+                fl.und_T = fl.und_T or ("Exclude on %s, a source of a crossed derived factor it is not crossed with "
+                                        "(documentation does not say whether the crossing shrinks)" % ef)
         if cr["sustain"] > 1 and p > 0:
             fl.und_T = fl.und_T or "preamble under Nest"
     fl.crossings = crs
